@@ -7,6 +7,7 @@
 -/
 import TE.Model.Shape
 import TE.Spec.Shape
+import TE.Lemmas.Shape
 namespace TE.ShapeSpec
 open TE TE.Shape
 
@@ -157,5 +158,12 @@ def Accepts_wasserstein (x y : Shp) (x_weights y_weights : Option Shp) : Bool :=
   weightOk x x_weights && weightOk y y_weights
 
 def Accepts_text (input target : Option Nat) : Bool := input == target
+
+/-- the uniform closing step of every C18 theorem, after the check / `Accepts` / `Valid` in question has been
+    unfolded and every tensor argument split by rank: unfold the shared families and the vocabulary, then `grind`. -/
+macro "shape_auto" : tactic =>
+  `(tactic| (simp [Valid_tasks1, Valid_1d, Valid_multiclass, Valid_scores, Valid_multilabel, Valid_tasks, Valid_regression,
+      Valid_text, Valid_retrieval_precision, patterns_tasks0, liftW, Accepts_tasks_strict, Accepts_multiclass, Accepts_tasks_nd,
+      Accepts_tasks_2d, unsqueeze0, norm1, ndim, size, Res.ite_ok, weightOk, numel_eq_zero] <;> grind))
 
 end TE.ShapeSpec
